@@ -445,7 +445,10 @@ def run(ctx):
     flow.expr_hook = recovery_expr_hook(ctx, init)
     # a shared helper (merkle_root, the hashers) is also called by the reading commands: only the creating contexts say
     # what a metafile is made of
-    flow.caller_filter = lambda f_: f_.module.name not in ("torrentfile.recheck", "torrentfile.rebuild", "torrentfile.edit")
+    base = ctx.prog.cls("torrentfile.torrent:MetaFile")
+    creating = [m_ for c_ in ctx.prog.subclasses(base) for m_ in c_.methods.values()] + [f_ for f_ in ctx.prog.functions.values() if f_.module.name in ("torrentfile.commands", "torrentfile.cli", "torrentfile.interactive") and f_.cls is None]
+    on_creation_paths = set(C.reach(ctx, creating)) | set(creating)
+    flow.caller_filter = lambda f_: f_.module.name not in ("torrentfile.recheck", "torrentfile.rebuild", "torrentfile.edit") and f_ in on_creation_paths
     lab = Labels(ctx, init)
     # the meta dictionary created by MetaFile.__init__
     roots = set()
@@ -556,7 +559,7 @@ def run(ctx):
                         ctx.violated("C08.3", f, "the order in which the operating system enumerates the directory survives into the value %s returns" % f.qualname, n)
                     else:
                         ctx.holds("C08.3", f, "enumeration order is cleansed (sorted) before %s returns" % f.qualname, n)
-    ctx.floor("directory enumeration sites in the creators", 4, enum_sites)
+    ctx.floor("directory enumeration sites in the creators", 2, enum_sites)
     from .dynscan import dynamic_features
     dynamic_features(ctx, "C08.0")
 
